@@ -17,7 +17,7 @@ func init() {
 		Stub: []string{"timeout ticker (simulator-controlled)", "gossip routines (anti-entropy stand-in incl. maj23 claims)", "p2p switch", "storage engine (SimDB)", "libxcrypto (pure-Go model)"},
 		Assumptions: []string{"catalogue blocks are invalid by construction against the statement's list; the implementation's validateBlock is not the oracle", "liveness is demanded only >= 90 s of fault-free virtual time after the Byzantine turn"},
 		QuickRuns: 200, QuickBudget: 75 * time.Second, ThoroughRuns: 8000, ThoroughBudget: 25 * time.Minute,
-		RunsPerProcess: 40, RunTimeout: 180 * time.Second,
+		RunsPerProcess: 40, RunTimeout: 600 * time.Second,
 		Run: func(c *kernel.Ctx) { cluster.RunMode(c, cluster.ModeValidation) },
 	})
 }
